@@ -908,3 +908,39 @@ def check_anc_names_products(case):
     """Same contract as C14.constraint_ancilla_names for histories that also multiply the model in place by a dict /
     model (`*=`) or square it (`**=`) between constraints. Non-trivial: two constraints with lam != 0 and a product."""
     return _check_anc(case)
+
+
+# ---------------------------------------------------------------------------------------------
+# known finding of round 4: merging a constrained model into another one
+# ---------------------------------------------------------------------------------------------
+def _gen_merge(ctx):
+    for t in ("PCBO", "PCSO"):
+        for how in ("iadd", "update", "add"):
+            yield {"type": t, "how": how}
+
+
+@clause("C14.constraint_ancilla_names_after_merge", "C14", gen=_gen_merge, nontrivial=lambda c: True)
+def check_merge(case):
+    """A PCBO / PCSO q that carries constraint ancillas is merged into a model p (p += q, p.update(q), p = p + q);
+    a constraint added to p afterwards must not reuse the ancilla names that came in with q."""
+    T = cls_of(case["type"])
+    con = {('a',): 1, ('b',): 1, ('c',): 1, (): -2}
+    q_ = T().add_constraint_le_zero(dict(con), lam=1)
+    before = {v for v in q_.variables if str(v).startswith("__a")}
+    p = T()
+    if case["how"] == "iadd":
+        p += q_
+    elif case["how"] == "update":
+        p.update(q_)
+    else:
+        p = p + q_
+    had = {v for v in p.variables if str(v).startswith("__a")}
+    terms0 = dict(p)
+    p.add_constraint_le_zero({('u',): 1, ('v',): 1, ('w',): 1, (): -2}, lam=1)
+    new_terms = {k: v for k, v in dict(p).items() if terms0.get(k) != v}
+    reused = sorted({str(l) for k in new_terms for l in k if str(l).startswith("__a") and l in had})
+    if reused and any(('u' in k or 'v' in k or 'w' in k) and any(l in had for l in k) for k in new_terms):
+        return Fail("after merging a model with ancillas %r (%s), the next constraint reuses %r; num_ancillas of the "
+                    "merged model was %r" % (sorted(map(str, before)), case["how"], reused, len(had) and "not advanced"),
+                    key="ancilla-reused-after-merge")
+    return None
